@@ -13,6 +13,10 @@ package main
 //   slinto <dt> <prog> <t> <slices> <dst|self>      Dense.SliceInto an EXISTING tensor (or the operand
 //                               itself): the destination becomes exactly the view Slice returns; a
 //                               refused range leaves it as it was
+//   xtext <format> <variant> <shape>   a STRING tensor whose elements contain characters that are special
+//                               to textual formats (separators, quotes, comment marks, spaces, line
+//                               breaks, empty strings, non-ASCII): written, read back into a fresh
+//                               tensor: same shape, same elements
 import (
 	"fmt"
 	"math"
@@ -41,7 +45,49 @@ func denseState(t *tensor.Dense) string {
 	})
 }
 
+var xtextSets = map[string][]string{
+	"hash":    {"id", "name", "#1", "first", "#2", "second", "#", "x#y"},
+	"comma":   {"a,b", "c", "d", "e,f,g", ",", "h", "i,", ",j"},
+	"quote":   {"\"q\"", "a", "b\"c", "d", "\"", "e'f", "''", "g"},
+	"space":   {" lead", "trail ", "  ", "a b", "c", " ", "d\te", "f"},
+	"newline": {"a\nb", "c", "d", "e\n", "\nf", "g", "h", "i"},
+	"empty":   {"", "a", "b", "", "c", "", "d", "e"},
+	"unicode": {"é", "日本", "𝛼", "a", "ß", "c", "→", "z"},
+	"numlike": {"1", "2.5", "-3", "1e9", "NaN", "0x10", "+Inf", "007"},
+	"punct":   {"a;b", "c|d", "e:f", "g\\h", "%s", "{}", "[1 2]", "<nil>"},
+}
+
 func init() {
+	execs["xtext"] = func(a []string) string {
+		return guard(func() string {
+			sh := ints(a[2])
+			n := prod(sh)
+			set := xtextSets[a[1]]
+			back := make([]string, n)
+			for i := range back {
+				back[i] = set[i%len(set)]
+			}
+			t := tensor.New(tensor.WithShape(sh...), tensor.WithBacking(append([]string(nil), back...)))
+			b, st := encode(a[0], t)
+			if st != "ok" {
+				return "werr" // refused when writing: "or is refused"
+			}
+			d, st := decode(a[0], tensor.String, b)
+			if st != "ok" {
+				return "unreadable:" + st
+			}
+			if !d.Shape().Eq(tensor.Shape(sh)) {
+				return fmt.Sprintf("shape:%v", d.Shape())
+			}
+			for i, c := range boxCoords(sh) {
+				v, err := d.At(c...)
+				if err != nil || v.(string) != back[i] {
+					return fmt.Sprintf("elements:%d", i)
+				}
+			}
+			return "same"
+		})
+	}
 	execs["xtomat"] = func(a []string) string {
 		return guard(func() string {
 			v := reflect.ValueOf(extremeValues(a[0]))
@@ -262,6 +308,17 @@ func genXKinds(prop string, emit func(string)) {
 	case "C04", "C17":
 		for _, dt := range []string{"i", "i8", "i16", "i32", "i64", "u", "u8", "u16", "u32", "u64", "f32", "f64"} {
 			emit("xtomat " + dt)
+		}
+	case "C14":
+		for _, f := range []string{"csv", "gob", "pb", "fb"} {
+			for _, v := range []string{"hash", "comma", "quote", "space", "newline", "empty", "unicode", "numlike", "punct"} {
+				for _, sh := range []string{"3,2", "4,1", "1,4", "2,4"} {
+					if f != "csv" && sh != "3,2" {
+						continue
+					}
+					emit(fmt.Sprintf("xtext %s %s %s", f, v, sh))
+				}
+			}
 		}
 	case "C20":
 		for _, e := range []string{"f64e", "f32e"} {
